@@ -1,7 +1,7 @@
 ---------------------------- MODULE ReshapeSM ----------------------------
 (***************************************************************************)
 (* State machine of a tensor value under the shape-changing operations of  *)
-(* src/tensor.rs: `reshape`, `flatten`, `get_flat`.  The abstract state is *)
+(* src/tensor.rs: `reshape`, `flatten`, `get_flat`, `get_triple`.  The abstract state is *)
 (* the tensor record (shape + nested data).  The data are element          *)
 (* identities 1..n, so "row-major order and element count are preserved"   *)
 (* is literally `GetFlat(T) = <<1,..,n>>`.  (C14)                          *)
@@ -10,7 +10,8 @@ EXTENDS Tensor, TLC
 
 CONSTANTS MaxDim,      \* dimensions range over 1..MaxDim
           MaxCount,    \* only shapes with at most this many elements
-          Depth        \* number of operations per behaviour
+          Depth,       \* number of operations per behaviour
+          WithViews    \* list the 3-D readings (get_triple) of every reached tensor (off in the trace specification)
 
 VARIABLES T,           \* current tensor
           start,       \* shape the behaviour started from
@@ -26,6 +27,10 @@ Identity(shape) ==
   IF Len(shape) = 1 THEN Single([i \in 1..shape[1] |-> i])
   ELSE [shape |-> shape, data |-> Unflat3([i \in 1..Count(shape) |-> i], shape[1], shape[2], shape[3])]
 
+\* get_triple(shape): the 3-D readings a tensor offers -- a vector can be read as any 3-D shape with its element
+\* count (row-major: flattening the reading gives the vector back), a 3-D tensor reads as itself
+ViewsOf(t) == IF ~WithViews THEN {} ELSE IF Len(t.shape) = 1 THEN {s \in Shapes3 : Count(s) = Count(t.shape)} ELSE {t.shape}
+
 Init == /\ \E s \in Shapes : T = Identity(s) /\ start = s
         /\ hist = <<>>
 
@@ -36,17 +41,17 @@ DoReshape(to) ==
   /\ IF ReshapeDefined(T.shape, to)
        THEN /\ T' = Reshape(T, to)
             /\ hist' = Append(hist, [op |-> "reshape", from |-> T.shape, to |-> to, outcome |-> "ok",
-                                     shape |-> T'.shape, flat |-> GetFlat(T')])
+                                     shape |-> T'.shape, flat |-> GetFlat(T'), views |-> ViewsOf(T')])
        ELSE /\ T' = T
             /\ hist' = Append(hist, [op |-> "reshape", from |-> T.shape, to |-> to, outcome |-> "panic",
-                                     shape |-> T.shape, flat |-> GetFlat(T)])
+                                     shape |-> T.shape, flat |-> GetFlat(T), views |-> {}])
 
 DoFlatten ==
   /\ Len(hist) < Depth
   /\ UNCHANGED start
   /\ T' = Flatten(T)
   /\ hist' = Append(hist, [op |-> "flatten", from |-> T.shape, to |-> <<>>, outcome |-> "ok",
-                           shape |-> T'.shape, flat |-> GetFlat(T')])
+                           shape |-> T'.shape, flat |-> GetFlat(T'), views |-> ViewsOf(T')])
 
 Next == (\E to \in Shapes : DoReshape(to)) \/ DoFlatten
 
